@@ -202,6 +202,10 @@ class H2Protocol:
             stream_ids = list(self.streams.keys())
             for stream_id in stream_ids:
                 await self._close_stream(stream_id)
+            # Nothing more can be sent, release any app blocked
+            # sending (the send task stops with the connection).
+            for buffer in self.stream_buffers.values():
+                await buffer.close()
             await self.has_data.set()
 
     async def stream_send(self, event: StreamEvent) -> None:
